@@ -32,6 +32,9 @@ for d in sorted(os.listdir(SD)):
     rs = res.get(d, [])
     m["what_i_ran"] = [f"tools/seedtest.sh seeded/{d}/patch.diff {c}   (VERIF_REPO scratch copy; ./vcheck {c} --tier quick)" for c, _v, _n in rs]
     m["detected_by"] = [{"check": c, "how": (v + (": " + n if n else ""))} for c, v, n in rs if v.startswith("VIOLATION")]
+    obsolete = [n for c, v, n in rs if v == "obsolete"]
+    if obsolete:
+        m["obsolete"] = obsolete[0]
     missed = [(c, n) for c, v, n in rs if v == "missed"]
     if missed and not m["detected_by"]:
         m["why_missed"] = "; ".join(f"{c}: {n}" for c, n in missed)
